@@ -1334,7 +1334,9 @@ static int64_t dump_dictionary(int *nbdico)
         }
         kb = (parsec_profiling_key_buffer_t *)&(b->buffer[pos]);
         strncpy(kb->name, k->name, 63); /* We copy only up to 63 bytes to leave room for the '\0' */
+        kb->name[63] = '\0';            /* the buffer is not zeroed when it comes from malloc / the freelist */
         strncpy(kb->attributes, k->attributes, 127); /* We copy only up to 127 bytes to leave room for the '\0' */
+        kb->attributes[127] = '\0';
         kb->keyinfo_length = k->info_length;
         kb->keyinfo_convertor_length = cs;
         if( cs > 0 ) {
@@ -1429,6 +1431,7 @@ static int64_t dump_thread(int *nbth)
         tb = (parsec_profiling_stream_buffer_t *)&(b->buffer[pos]);
         tb->nb_events = thread->nb_events;
         strncpy(tb->hr_id, thread->hr_id, 127); /* We copy only up to 127 bytes to leave room for the '\0' */
+        tb->hr_id[127] = '\0';
         tb->first_events_buffer_offset = thread->first_events_buffer_offset;
 
         nb++;
@@ -1629,6 +1632,7 @@ int parsec_profiling_dbp_start( const char *basefile, const char *hr_info )
     profile_head->byte_order = 0x0123456789ABCDEF;
     profile_head->profile_buffer_size = event_buffer_size;
     strncpy(profile_head->hr_id, hr_info, 127); /* We copy only up to 127 bytes to leave room for the '\0' */
+    profile_head->hr_id[127] = '\0';
     profile_head->rank = parsec_profiling_process_id;
 
 #if defined(PARSEC_PROFILING_USE_HELPER_THREAD)
